@@ -196,7 +196,11 @@ void blast()
           break;
         if (r == -1) temp_read();
         if (ch != '\n') {
+          /* bare CR ended the line: ch starts a new one */
           substdio_put(&smtpto, "\r\n", 2);
+          if (ch == '.')
+            substdio_put(&smtpto,".",1);
+          continue;
         } else
           break;
       }
